@@ -45,6 +45,22 @@ var c16Contents = []string{
 	"bad\xff\nplain\n",   // not UTF-8 but needs no quoting: stored as it is
 }
 
+var c16LinePool = []string{"alpha", "alpha beta", "", "-- a --", "-- g1.txt --", "--  --", "-- --", " -- a --", "-- a -- ", "--  a  --", "-- a --\r", ">quoted", ">", ">-- a --",
+	"-- not a marker", "x --", "$X and ${Y}", "tab\there", "\r", "caf\u00e9", "bad\xff", "-- \xff --", "'quoted'", "#not a comment", "-- sub/deep/want --"}
+
+// c16RandContent: 0-4 lines of the pool, with or without a final newline
+func c16RandContent(r *common.RNG) string {
+	var b strings.Builder
+	n := r.Intn(5)
+	for i := 0; i < n; i++ {
+		b.WriteString(pick(r, c16LinePool))
+		if i < n-1 || r.Chance(3, 4) {
+			b.WriteString("\n")
+		}
+	}
+	return b.String()
+}
+
 // producer returns the script lines that make `src` (stdout | stderr | a file name) hold text.
 func c16Producer(r *common.RNG, text string, i int) (lines []string, src string) {
 	h := helperName
@@ -52,6 +68,20 @@ func c16Producer(r *common.RNG, text string, i int) (lines []string, src string)
 	body := strings.TrimSuffix(text, "\n")
 	multi := strings.Contains(body, "\n")
 	file := fmt.Sprintf("act%d.txt", i)
+	if !c16Simple(text) || r.Chance(1, 4) {
+		// any content at all, spelled in hexadecimal
+		hx := common.Hex([]byte(text))
+		if hx == "-" || hx == "" {
+			hx = "''"
+		}
+		switch r.Intn(3) {
+		case 0:
+			return []string{"exec " + h + " unhex " + hx}, "stdout"
+		case 1:
+			return []string{"exec " + h + " unhexerr " + hx}, "stderr"
+		}
+		return []string{"exec " + h + " unhex " + hx, "cp stdout " + file}, file
+	}
 	if i8 := strings.Index(text, "\xff\n"); i8 >= 0 && nl {
 		ws := []string{c16Quote(text[:i8])}
 		for _, l := range strings.Split(strings.TrimSuffix(text[i8+2:], "\n"), "\n") {
@@ -123,6 +153,22 @@ func c16Words(body string) string {
 
 // what the producer really produces (the default branch of c16Producer is lossy)
 func c16Produced(text string) string {
+	if !c16Simple(text) {
+		return text // spelled in hexadecimal: nothing is lost
+	}
+	return c16ProducedSimple(text)
+}
+
+// c16Simple: one of the older word-based producers renders the text exactly
+func c16Simple(text string) bool {
+	if strings.ContainsAny(text, "\xff\r'") {
+		// (the lines8 producer is kept for the two fixed contents it was written for)
+		return text == "bad\xff\n-- a --\n" || text == "bad\xff\nplain\n"
+	}
+	return c16ProducedSimple(text) == text
+}
+
+func c16ProducedSimple(text string) string {
 	nl := strings.HasSuffix(text, "\n")
 	if strings.Contains(text, "\xff\n") && nl {
 		return text
@@ -258,6 +304,9 @@ func genC16(r *common.RNG, id string) (*Case, *c16Expect) {
 			actual = want
 		default:
 			actual = pick(r, c16Contents)
+			if r.Chance(1, 2) {
+				actual = c16RandContent(r)
+			}
 		}
 		actual = c16Produced(actual)
 		// where the comparison runs: $WORK, the entry's own directory, or another one
